@@ -1,8 +1,59 @@
-/- line-protocol handlers for the C10 models (stub: nothing modelled yet) -/
-import FontVerif.Model.Base
+/- line-protocol handlers for the C10 models (Model/PackedDeltas.lean, Model/Iup.lean) -/
+import FontVerif.Model.PackedDeltas
 namespace FontVerif.Drv.C10
-open FontVerif
+open FontVerif FontVerif.PackedDeltas
 
-def handle (_cmd : String) (_args : List String) : Option String := none
+def optHex : Option (List Nat) → String
+  | none => "trap"
+  | some bs => toHex bs
+
+def optNat : Option Nat → String
+  | none => "trap"
+  | some n => toString n
+
+def showTriples (l : List (Nat × Int × Int)) : String :=
+  if l.isEmpty then "-" else " ".intercalate (l.map fun (p, x, y) => s!"{p}:{x}:{y}")
+
+def handlePacked (cmd : String) (args : List String) : Option String :=
+  match cmd, args with
+  | "pd.enc", xs => (parseInts? (xs.filter (· ≠ "-"))).map fun ds => toHex (encodeDeltas ds)
+  | "pd.size", xs => (parseInts? (xs.filter (· ≠ "-"))).map fun ds => optNat (computeSize ds)
+  | "pd.dec", [n, h] =>
+    match parseNat? n, parseHex? h with
+    | some n, some bs => some (joinInts (decodeDeltas bs n))
+    | _, _ => none
+  | "pd.decall", [h] => (parseHex? h).map fun bs => joinInts (decodeAll bs)
+  | "pd.xy", [n, h] =>
+    match parseNat? n, parseHex? h with
+    | some n, some bs => some (joinInts (xDeltas bs n) ++ " | " ++ joinInts (yDeltas bs n))
+    | _, _ => none
+  | "pp.enc", xs => (parseNats? (xs.filter (· ≠ "-"))).map fun ps => optHex (encodePoints ps)
+  | "pp.size", xs => (parseNats? (xs.filter (· ≠ "-"))).map fun ps => optNat (ptComputeSize ps)
+  | "pp.dec", [h] =>
+    (parseHex? h).map fun bs =>
+      let c := (countAndCountBytes bs).1
+      let rem := (splitRemainder bs).length
+      match decodePoints bs with
+      | none => s!"{c} {rem} all"
+      | some l => s!"{c} {rem} {joinNats l}"
+  | "td.priv", [h] =>
+    (parseHex? h).map fun ser => showTriples (tupleDeltas ser (splitRemainder ser))
+  | "td.shared", [n, h] =>
+    match parseNat? n, parseHex? h with
+    | some size, some data =>
+      let rest := splitRemainder data
+      some (if size > rest.length then "-" else showTriples (tupleDeltas data (rest.take size)))
+    | _, _ => none
+  | "rd.dense", [n, h] =>
+    match parseNat? n, parseHex? h with
+    | some n, some bs =>
+      some (match readDense (n + 1) 0 n bs with
+        | none => "err"
+        | some (vs, rest) => s!"{joinInts vs} | {rest.length}")
+    | _, _ => none
+  | _, _ => none
+
+def handle (cmd : String) (args : List String) : Option String :=
+  handlePacked cmd args
 
 end FontVerif.Drv.C10
